@@ -3,6 +3,7 @@ import Casm.Proofs.AssembleLemmas
 import Casm.Proofs.StableId
 import Casm.Proofs.KindInv
 import Casm.Proofs.FrontOKb
+import Casm.Proofs.FrontSyms
 import Casm.Props.C01
 /-!
 # C02 — a successful result is a genuine fixed point, never a stale guess
@@ -223,15 +224,13 @@ def FullFixedPoint (st : Static) (nodes : List AstNode) (d : Defs) : Prop :=
 /-- **C02, the statement in full for the optimised assembler.**  Whenever assembly succeeds with
     the static optimisation on and a budget of at least two passes, recomputing every instruction,
     data element, label and constant from the final state — nothing skipped — is stable, silent and
-    reproduces that state.  `frontOKb` is a decision procedure for nine facts about the front
-    end's output (nothing marked yet, item references pairwise distinct, the `known` flags mean
-    what the analysis computed in the node's symbol context, no label is flagged, a flagged symbol
-    with a value is marked, no rule parameter is named like an inclusion function); it is
-    evaluated by the certificate of every correspondence run (never false). -/
+    reproduces that state.  No hypothesis on the program is left: what the proof needs about the
+    front end's output (`FrontOK`) is proved of the front end (`frontEnd_frontOK`); its decision
+    procedure `frontOKb` is still evaluated by the certificate of every correspondence run. -/
 theorem success_recomputes_everything (opts : Opts) (fs : SrcFiles) (roots : List (List Char)) (res : AsmOk)
     (hb : 2 ≤ opts.maxIter) (ho : opts.optStatic = true) (h : assemble opts fs roots = .ok res) :
     ∃ st nodes defs0 d, frontEnd opts fs roots = .ok (st, nodes, defs0) ∧ ReadFrom st nodes d res ∧
-      (frontOKb st nodes defs0 = true → FullFixedPoint st nodes d) := by
+      FullFixedPoint st nodes d := by
   obtain ⟨st, nodes, defs0, d, hf, _, hread⟩ := success_is_fixed_point opts fs roots res hb h
   have hst : st.opts = opts := (frontEnd_opts opts fs roots st nodes defs0 hf).1
   -- the same final state `d`: re-derive it from the iteration
@@ -259,10 +258,10 @@ theorem success_recomputes_everything (opts : Opts) (fs : SrcFiles) (roots : Lis
               injection h with h
               subst h
               exact ⟨⟨bst, hbuild, rfl, rfl⟩, rfl⟩
-      refine ⟨st, nodes, defs0, d', hf, hread', fun hfo => ?_⟩
+      refine ⟨st, nodes, defs0, d', hf, hread', ?_⟩
       have hwf : NoClash nodes := frontEnd_noClash opts fs roots st nodes defs0 hf
       have ho' : st.opts.optStatic = true := by rw [hst]; exact ho
-      have f := frontOKb_sound st nodes defs0 ho' hfo
+      have f := frontEnd_frontOK opts ho fs roots st nodes defs0 hf
       unfold resolveIteratively at hr
       obtain ⟨r, pre, hfix, hrep⟩ := resolveIterativelyN_full_fixed_point st nodes defs0 f st.opts.maxIter
         (by rw [hst]; exact hb) ho' hwf iters d' [] hr
